@@ -23,11 +23,21 @@ import (
 	"time"
 )
 
-const (
+const goBin = "go1.26.8"
+
+// verifRoot is /verif unless VERIF_ROOT points at another checkout of it (a
+// background run from a snapshot); everything else is relative to it.
+var (
 	verifRoot = "/verif"
 	harness   = "/verif/harness"
-	goBin     = "go1.26.8"
 )
+
+func init() {
+	if r := os.Getenv("VERIF_ROOT"); r != "" {
+		verifRoot = r
+		harness = filepath.Join(r, "harness")
+	}
+}
 
 type tierCfg struct {
 	Shards int
